@@ -148,15 +148,33 @@ def _run(ctx):
     ctx.ob("R-WHO", "prev-view-no-mut-accessor", not muts, "no accessor returns &mut to the previous document", "src/incremental_document.rs", what="accessor(s) %s return a mutable reference into the previous view" % muts)
     # 5. copy-on-write
     oc = F.fn("IncrementalDocument::opt_clone_object_to_new_document")
-    ho = lib.local_calls(F, oc, "Document::has_object")
-    so = lib.local_calls(F, oc, "Document::set_object")
-    okc = len(ho) == 1 and len(so) == 1 and "new_document" in oc.oname(ho[0].args[0], 3)
-    if okc:
-        import inv
-        gs = inv.rendered_guards(oc, so[0].bb)
-        okc = any(g.startswith("has_object(") and tr is False for g, tr in gs)
-    ctx.ob("R-ORDER", "copy-on-write-only-when-absent", okc, "set_object is dominated by !new_document.has_object(id)", oc.where(),
-           what="opt_clone_object_to_new_document copies the old object even when the update already holds a (newer) object under that id")
+    # every store into new_document's objects made here happens only when the update holds nothing under that id: either a
+    # set_object / insert dominated by a failed has_object / contains_key test, or an insertion through the map's entry API
+    # that cannot overwrite by its type (VacantEntry::insert, Entry::or_insert*)
+    import inv
+    stores = []
+    badst = []
+    for c in oc.calls:
+        n = c.cname if c.local else (c.fn or "")
+        a0 = oc.oname(c.args[0], 4) if c.args else ""
+        if (c.local and n.endswith("Document::set_object") or re.search(r"BTreeMap::<.*>::insert$", n)) and "new_document" in a0:
+            gs = inv.rendered_guards(oc, c.bb)
+            ok1 = any(re.match(r"(has_object|contains_key)\(", g) and "new_document" in g and tr is False for g, tr in gs)
+            stores.append(c)
+            if not ok1:
+                badst.append("line %d: %s" % (c.ln, n.rsplit("::", 1)[-1]))
+        elif re.search(r"btree_map::(VacantEntry|Entry)::<.*>::(insert|insert_entry|or_insert|or_insert_with|or_insert_with_key|or_default)$", n):
+            if re.search(r"Entry::<.*>::(insert|insert_entry)$", n) and "VacantEntry" not in n:
+                stores.append(c)
+                badst.append("line %d: Entry::insert overwrites" % c.ln)
+                continue
+            rp = oc.root_place(op_place(c.args[0]), through_names=True) if op_place(c.args[0]) is not None else None
+            d = oc.single_def(rp["l"]) if rp is not None else None
+            if d is not None and d[2] == "call" and re.search(r"BTreeMap::<.*>::entry$", d[3]["f"].get("fn") or "") and "new_document" in oc.oname(d[3]["args"][0], 4):
+                stores.append(c)
+    okc = len(stores) >= 1 and not badst
+    ctx.ob("R-ORDER", "copy-on-write-only-when-absent", okc, "every store into new_document (%d) is made only when the id is absent there" % len(stores), oc.where(),
+           what="opt_clone_object_to_new_document copies the old object even when the update already holds a (newer) object under that id (%s)" % (badst or "no store found"))
     # ... and that is the only door: no other method of IncrementalDocument stores into new_document an object it took from
     # prev_documents (a copy made anywhere else has no `has_object` test in front of it and overwrites what the update holds)
     import inv as _inv
